@@ -6,11 +6,13 @@
 // analysed loop: the SSA call `recN(L, v...)` with constant L sits in exactly one innermost
 // analysed loop. Variable <-> phi: the remaining call arguments ARE the header phis (pointer
 // identity, no names). Monitor:
-//   (i)  an induction variable reported as {Start,+,Step}: the value logged at the k-th
-//        header evaluation of an activation must equal Start + k*Step modulo the variable's
-//        width (Start/Step evaluated by the monitor's own evaluator at activation start);
-//   (ii) a TripCount that evaluates to a number T: the exit test must have chosen "stay"
-//        exactly T times in every completed activation.
+//
+//	(i)  an induction variable reported as {Start,+,Step}: the value logged at the k-th
+//	     header evaluation of an activation must equal Start + k*Step modulo the variable's
+//	     width (Start/Step evaluated by the monitor's own evaluator at activation start);
+//	(ii) a TripCount that evaluates to a number T: the exit test must have chosen "stay"
+//	     exactly T times in every completed activation.
+//
 // Anything the evaluator cannot evaluate is undecided, never a violation.
 package main
 
